@@ -327,7 +327,7 @@ FailedEnded(s) == {b \in s.ended : ~s.pc[b].v.ok}
 
 CapEvent(s) ==
   LET c == Head(s.capq) IN
-  E("cap", c.id, c.b, NoV, [i \in 1 .. Len(c.reads) |-> [b |-> c.reads[i], v |-> s.names[c.reads[i]]]])
+  E("cap", c.id, c.b, NoV, [i \in 1 .. Len(c.reads) |-> [b |-> c.reads[i], v |-> s.names[c.reads[i]], w |-> TRUE]])
 
 OnCaller(s) == IsAsync(s.prog) => s.inpoll   \* caller-side events of async macros happen inside a poll
 
